@@ -4,9 +4,11 @@ set -u
 f=$1; expr=$2; shift 2
 cd /repo
 cp "$f" /tmp/mut.bak
+rm -rf /tmp/evid.bak; cp -r /verif/evidence /tmp/evid.bak
 sed -i -E "$expr" "$f"
 if git diff --quiet -- "$f"; then echo "MUTATION DID NOT APPLY"; exit 2; fi
 git --no-pager diff --stat -- "$f" | tail -1
 for p in "$@"; do (cd /verif && ./check $p 2>&1 | grep -E "VIOLATION|rule=|^  [a-zA-Z]|^C[0-9]+ " | head -12); done
 cp /tmp/mut.bak "$f"
+rm -rf /verif/evidence; cp -r /tmp/evid.bak /verif/evidence
 git diff --quiet -- "$f" || echo "REVERT FAILED"
